@@ -677,7 +677,7 @@ func ruleJointUnderGc(w *core.World, r *core.Report) {
 		}
 		bad := ""
 		n := 0
-		okEnum := core.EnumPathsN(f.Blocks[0], 0, 400000, 2, func(p *core.Path) {
+		okEnum := core.EnumPathsN(f.Blocks[0], 0, 400000, core.Unroll, func(p *core.Path) {
 			if bad != "" {
 				return
 			}
@@ -975,7 +975,7 @@ func ruleVerifyOnOpen(w *core.World, r *core.Report) {
 	if f := fn(w, r, "(*pkg/store.AofRotateReader).isCorrupted"); f != nil {
 		bad := ""
 		n := 0
-		core.EnumPathsN(f.Blocks[0], 0, 100000, 2, func(p *core.Path) {
+		core.EnumPathsN(f.Blocks[0], 0, 100000, core.Unroll, func(p *core.Path) {
 			ret, ok := p.End.(*ssa.Return)
 			if !ok || bad != "" {
 				return
